@@ -40,7 +40,12 @@ the observed suggestions (or, for the benchmark path, the trial sequence).
       status, parameters, final measurements of all trials) on Branin / BBOB
       (optionally discretised / categorised / shifted / noisy with a noise
       seed) / SimpleKD, and R2 through the benchmark path (seed ->
-      InRamDesignerPolicy -> designer factory).
+      InRamDesignerPolicy -> designer factory).  35 % of the protocols contain
+      `EvaluateAndAddPriorStudy(seed=...)` steps (before the main loop or in
+      every repeat, named or unnamed, same or another designer/benchmark): the
+      compared record then includes the trials of every prior study attached
+      to the supporter (GetTrials(study_guid=...), insertion order), and R2 is
+      also judged for the seed of the first prior study.
 
 Not demanded: equality of suggestion metadata (the GP designers write wall
 clock durations there), any relation between different designers, anything
@@ -339,13 +344,14 @@ def seeds_strategy(draw):
 
 
 # ---------------------------------------------------------------- benchmark
-# the BBOB functions that the sandbox numpy (2.x) can evaluate; the others
-# (Rastrigin, LinearSlope, Ellipsoidal, Discus, BentCigar, Weierstrass,
-# SchaffersF7*, Gallagher*, Negative*) raise "only 0-dimensional arrays can be
-# converted to Python scalars" in every run - an environment matter, not C14
-BBOB = ['Sphere', 'BuecheRastrigin', 'AttractiveSector', 'StepEllipsoidal',
-        'RosenbrockRotated', 'SharpRidge', 'DifferentPowers',
-        'GriewankRosenbrock', 'Schwefel', 'Katsuura', 'Lunacek']
+# all single-objective BBOB functions of bbob.py
+BBOB = ['Sphere', 'Rastrigin', 'BuecheRastrigin', 'LinearSlope',
+        'AttractiveSector', 'StepEllipsoidal', 'RosenbrockRotated',
+        'Ellipsoidal', 'Discus', 'BentCigar', 'SharpRidge', 'DifferentPowers',
+        'Weierstrass', 'SchaffersF7', 'SchaffersF7IllConditioned',
+        'GriewankRosenbrock', 'Schwefel', 'Katsuura', 'Lunacek',
+        'Gallagher101Me', 'Gallagher21Me', 'NegativeSphere',
+        'NegativeMinDifference']
 NOISE = ['MODERATE_GAUSSIAN', 'SEVERE_UNIFORM', 'SEVERE_SELDOM_CAUCHY',
          'LIGHT_ADDITIVE_GAUSSIAN', 'SEVERE_ADDITIVE_GAUSSIAN']
 
@@ -402,8 +408,8 @@ def _protocol(draw, max_count=4):
 
 
 @st.composite
-def bench_run(draw, designers=lib.CHEAP):
-  designer = draw(_designer(designers))
+def _bench_core(draw, designer, experimenter=None):
+  """The keys that describe one benchmark (main or prior study)."""
   protocol = draw(_protocol(3 if designer == 'cmaes' else 4))
   # >= 8 suggestions per run (R2 precondition), by construction
   per_repeat = sum(op[1] for op in protocol
@@ -415,7 +421,7 @@ def bench_run(draw, designers=lib.CHEAP):
   return {
       'designer': designer, 'entry': draw(_entry(designer)),
       'opts': draw(_opts(designer, r2=True)),
-      'experimenter': draw(_experimenter(designer)),
+      'experimenter': experimenter or draw(_experimenter(designer)),
       'seed': draw(_seed()),
       'via': draw(st.sampled_from(['exptr_factory', 'exptr'])),
       'protocol': protocol,
@@ -424,11 +430,40 @@ def bench_run(draw, designers=lib.CHEAP):
 
 
 @st.composite
+def _prior_study(draw, main, index):
+  """An EvaluateAndAddPriorStudy(seed=...) step of the protocol."""
+  designer = main['designer']
+  if designer != 'cmaes' and draw(_mix(50)):
+    designer = draw(_designer([d for d in lib.CHEAP if d != 'cmaes']))
+  # usually the prior study is a run of the same benchmark
+  same = designer != 'cmaes' or main['designer'] == 'cmaes'
+  ex = main['experimenter'] if same and draw(_mix(60)) else None
+  ps = draw(_bench_core(designer, ex))
+  ps['guid'] = None if draw(_mix(20)) else 'prior%d' % index
+  ps['where'] = ('each_repeat' if ps['guid'] and main['repeats'] <= 4
+                 and draw(_mix(25)) else 'before')
+  return ps
+
+
+@st.composite
+def bench_run(draw, designers=lib.CHEAP, prior_percent=35):
+  run = draw(_bench_core(draw(_designer(designers))))
+  if draw(_mix(prior_percent)):
+    run['prior_studies'] = [draw(_prior_study(run, i)) for i in range(
+        2 if draw(_mix(20)) else 1)]
+  return run
+
+
+@st.composite
 def bench_strategy(draw):
   run = draw(bench_run())
   seeds = draw(_seeds(K_SEEDS))
   run['seed'] = seeds[0]
-  return {'run': run, 'seeds': seeds, 'envs': draw(envs(run['designer']))}
+  case = {'run': run, 'seeds': seeds, 'envs': draw(envs(run['designer']))}
+  if run.get('prior_studies'):
+    case['prior_seeds'] = draw(_seeds(K_SEEDS))
+    run['prior_studies'][0]['seed'] = case['prior_seeds'][0]
+  return case
 
 
 @st.composite
@@ -438,7 +473,8 @@ def xproc_strategy(draw):
   items = []
   for _ in range(n):
     if draw(_mix(30)):
-      items.append({'kind': 'bench', 'run': draw(bench_run())})
+      items.append({'kind': 'bench',
+                    'run': draw(bench_run(prior_percent=50))})
     else:
       items.append({'kind': 'stream', 'run': draw(stream_run())})
   return {'hashseed': draw(st.integers(1, 2 ** 32 - 1)), 'items': items,
@@ -553,6 +589,15 @@ def _bench_classes(out, run):
     out.cls('discretised')
   if run['seed'] == 0:
     out.cls('seed_0')
+  for ps in run.get('prior_studies') or []:
+    out.cls('prior_study', 'prior_study_' + ps.get('where', 'before'),
+            'prior_by_' + ps['designer'])
+    if ps.get('guid') is None:
+      out.cls('prior_study_unnamed')
+    if ps['seed'] == 0:
+      out.cls('prior_study_seed_0')
+  if len(run.get('prior_studies') or []) > 1:
+    out.cls('two_prior_studies')
   # a suggest after an evaluation: the algorithm sees a non-empty history
   ops = run['protocol'] * run.get('repeats', 1)
   seen_eval = False
@@ -682,8 +727,40 @@ def check_bench(case):
     out.cls('active_trials_left')
   _r2(out, 'R2/seed_ignored_via_benchmark', item, case['seeds'],
       case['envs']['a'], first=first)
+  if run.get('prior_studies'):
+    if first['prior'] and all(p['trials'] for p in first['prior']):
+      out.cls('prior_trials_compared')
+    _r2_prior(out, item, case, first)
   out.nontrivial = nt and len(first['trials']) >= 2
   return out
+
+
+def _r2_prior(out, item, case, first):
+  """The `seed` of EvaluateAndAddPriorStudy is used: K pairwise different
+  seeds (everything else equal) do not all give the same prior study."""
+  run = item['run']
+  priors = []
+  for i, s in enumerate(case['prior_seeds']):
+    if i == 0:
+      o = first
+    else:
+      ps = [dict(run['prior_studies'][0], seed=s)] + run['prior_studies'][1:]
+      o = lib.execute(dict(item, run=dict(run, prior_studies=ps),
+                           env=case['envs']['a']))
+    priors.append({'trials': o['prior'][0]['trials'] if o['prior'] else [],
+                   'error': None})
+  if len(priors[0]['trials']) < 8:
+    out.cls('r2_prior_not_judged_short')
+    return
+  if all(lib.first_diff(priors[0], o) is None for o in priors[1:]):
+    out.violate('R2/prior_study_seed_ignored/%s' % (
+        run['prior_studies'][0]['designer']),
+                '%d pairwise different EvaluateAndAddPriorStudy seeds %r gave '
+                'the same %d prior trials' % (
+                    len(priors), case['prior_seeds'],
+                    len(priors[0]['trials'])))
+  else:
+    out.cls('r2_prior_judged')
 
 
 def _check_xproc(case, timeout):
@@ -783,7 +860,7 @@ def families(tier):
                   shards={'quick': 16, 'thorough': 16},
                   required_classes=lib.CHEAP + (
                       'item_stream', 'item_bench',
-                      'two_or_more_parameter_names'),
+                      'two_or_more_parameter_names', 'prior_study'),
                   max_shrink_s={'quick': 150, 'thorough': 400}),
       core.Family('cheap', check_cheap, strategy=cheap_strategy,
                   budget={'quick': 1200, 'thorough': 16000},
@@ -806,5 +883,7 @@ def families(tier):
                       'exptr_branin', 'exptr_bbob', 'exptr_simplekd',
                       'via_exptr', 'via_exptr_factory', 'noisy',
                       'history_nonempty', 'r2_judged',
-                      'two_or_more_trials')),
+                      'two_or_more_trials', 'prior_study',
+                      'prior_trials_compared', 'r2_prior_judged',
+                      'prior_study_unnamed', 'prior_study_each_repeat')),
   ]
